@@ -2,7 +2,7 @@
    I and J are finite tables keyed by (phase, a, b), math.log is a rational stand-in
    (x - c) / d on x > 0.  Executable definitions only. *)
 From V Require Import Common.Num C07.Model C07.Gen_FreeEnergy C07.Gen_InitEnergies C07.Gen_MixtureModels C07.Gen_InitData
-     C07.Gen_Rewire C07.Rewire.
+     C07.Gen_Rewire C07.Rewire C07.Gen_Packages C07.Packages.
 Open Scope Q_scope.
 
 Definition QOps (lnc lnd : Q) : Ops Q :=
@@ -180,9 +180,10 @@ Definition hobserve lnc lnd tI tJ (h : list qcc) (c : hchem) (q : query) : pyv Q
   let i := w_in _ _ _ c in
   if cc_eqb (hget qcc d0cc h (w_cn _ _ _ c)) (i_cn _ _ _ i) then
     do hs <- init_energies (henv lnc lnd tI tJ i) (hdata i) (i_kind _ _ _ i) (i_pr _ _ _ i);
+    let nar ph := match w_narrow _ _ _ c with Some p => p | None => ph end in   (* lock_phase without a rebuild *)
     match q with
-    | QH ph T P => call_handle (fst hs) ph T P
-    | QS ph T P => call_handle (snd hs) ph T P
+    | QH ph T P => call_handle (fst hs) (nar ph) T P
+    | QS ph T P => call_handle (snd hs) (nar ph) T P
     end
   else Err EOther.
 
@@ -199,3 +200,24 @@ Definition set_Sfus (v : Q) (s : qsc) := mkSc (q_Tm s) (q_Tb s) (q_Hfus s) (Some
 Definition hist_case lnc lnd tI tJ specs (ops : list hop) (qs : list query) (expected : list (list (pyv Q))) : bool :=
   let s := run qcc (option Q) qsc d0cc qmerge (hstate0 specs) ops in
   list_eqb pyvs_approxb (map (fun c => map (hobserve lnc lnd tI tJ (fst s) c) qs) (snd s)) expected.
+
+(* ---- property packages: mixture of package k evaluated with the functors its mixture models hold ---- *)
+Inductive pobs : Type :=
+| PoH (k : nat) (ph : phase) (mol : list Q) (T P : option Q)
+| PoS (k : nat) (ph : phase) (mol : list Q) (T P : option Q)
+| PoCn (k : nat) (ph : phase) (mol : list Q) (T : option Q).
+
+Definition pkg_mix (chems : list qchem) (p : pkg) : qmix :=
+  mkQMix (flat_map (fun i => match nth_error chems i with Some c => [c] | None => [] end) (p_models p)) false [] [].
+
+Definition pkg_obs lnc lnd (chems : list qchem) (s : list pkg) (o : pobs) : pyv Q :=
+  match o with
+  | PoH k ph mol T P => match nth_error s k with Some p => mix_H lnc lnd (pkg_mix chems p) ph mol T P | None => Err EIndex end
+  | PoS k ph mol T P => match nth_error s k with Some p => mix_S lnc lnd (pkg_mix chems p) ph mol T P | None => Err EIndex end
+  | PoCn k ph mol T => match nth_error s k with Some p => mix_Cn lnc lnd (pkg_mix chems p) ph mol T | None => Err EIndex end
+  end.
+
+Definition pkg_case lnc lnd (chems : list qchem) (ops : list pop) (chem_lists : list (list nat)) (obs : list pobs)
+           (expected : list (pyv Q)) : bool :=
+  let s := prun [] ops in
+  list_eqb (list_eqb Nat.eqb) (map p_chems s) chem_lists && pyvs_approxb (map (pkg_obs lnc lnd chems s) obs) expected.
